@@ -235,7 +235,8 @@ def cfgs(tier, W):
     for name, (n, edges) in SCHED_SHAPES.items():
         graphs.append((n, edges))
     for gi, (n, edges) in enumerate(graphs):
-        kedges = [(i, j, "p" if (i + j + gi) % 3 else "k") for i, j in edges]
+        # argument, keyword and plain-dependency edges (a call that is only depended upon has no consumer at all)
+        kedges = [(i, j, ("p", "k", "d")[(i + j + gi) % 3] if gi % 2 else ("p" if (i + j + gi) % 3 else "k")) for i, j in edges]
         sinks = [i for i in range(n) if not any(e[0] == i for e in edges)]
         outs = [None, n - 1, sinks] if sinks != [n - 1] else [None, n - 1]
         for out in outs:
